@@ -13,8 +13,14 @@
 //  * the root of the tree is the node the container names as its root (getRoot()); it is never deleted, and the empty
 //    tree is outside the quantifier (trees with 1..12 nodes).
 //  * generator restrictions that keep the histories away from defects of the plain graph layer (property C14): an
-//    ordered pair is never linked twice, removals are only done while the graph is directed (undirected unlink),
+//    ordered pair is never linked twice, removals in a history are only done while the graph is directed,
 //    setRoot is only used "at first construction" as its documentation demands.
+//  * non-trees next to a tree: loops x--x / x->x are linked in the rooted and in the un-rooted graph (in the histories half of the
+//    dedicated loops sit on the node the container names as its root, the start of the validity traversal); E_tree_extra_link adds
+//    every possible single link to every small tree, rooted or un-rooted, and takes it away again.
+//  * law 4 is also asked of the tree graph itself, where the "edge object" is the edge id given to setFather(n,f,id) / addSon(f,n,id):
+//    the id of the node's present branch (setFather unlinks the node from its father first, so that id is free for the new link), an id
+//    set free earlier, or a new one.  An id in use by ANOTHER link is never given (the refusal is not part of the statement).
 #include "common/pbt.hpp"
 #include "common/bppcommon.hpp"
 
@@ -199,8 +205,9 @@ Shape orient(int n, const vector<pair<int, int>>& e, int r0) {
   return s;
 }
 // every labelled tree on n nodes (Pruefer sequence) x every root: all rooted labelled trees
-Shape enumShape(vf::Ctx& c, int fixedRoot = -1) {
+Shape enumShape(vf::Ctx& c, int fixedRoot = -1, int cap = 7) {
   int maxN = (c.s.enumerating() && c.shardN < 32) ? 6 : 7;  // the thorough tier runs the enum laws with 32 shards
+  maxN = min(maxN, cap);
   int n = 1 + static_cast<int>(c.below(7)); if (n > maxN) throw vf::Skip();
   vector<int> s; for (int i = 0; i + 2 < n; ++i) s.push_back(static_cast<int>(c.below(static_cast<uint64_t>(n))));
   int r0 = fixedRoot >= 0 ? 0 : static_cast<int>(c.below(static_cast<uint64_t>(n)));
@@ -460,16 +467,19 @@ LAW(R_tree_mrca_leaves, RC, 16000, 500000, 40, "a queried set in which one membe
 }
 
 // ================================================================== trees, histories
-LAW(H_tree_history, RC, 20000, 600000, 220, "a history in which the validity of the tree changes at least twice") {
+LAW(H_tree_history, RC, 20000, 600000, 260, "a history in which the validity of the tree changes at least twice") {
   TreeSut t(c);
   t.createNode(); c.desc << "new0";
   int nops = c.irange(1, 24); bool lastRef = true; int flips = 0;
   for (int op = 0; op < nops; ++op) {
     vector<U> nd = t.live(); Model& m = t.m;
     U a = nd[c.below(nd.size())], b = nd[c.below(nd.size())]; bool wobj = c.flag();
-    size_t kind = c.weighted({6, 2, 5, 5, 1, 3, 1, 2, 3, 1, 1, 2, 1, 4, 3});
-    bool back = a == b || m.find(b, a) != nullptr;  // the new link a->b would be a self-loop or close a reciprocal pair: only now and then
-    if (back && (kind == 2 || kind == 3 || kind == 4 || kind == 11) && !c.oneIn(8)) kind = 13;
+    size_t kind = c.weighted({6, 2, 5, 5, 1, 3, 1, 2, 3, 1, 1, 2, 1, 4, 3, 3, 1});
+    if (kind == 16) { kind = 2; b = a = c.flag() ? m.root : a; }  // a loop, half of the time on the node the container names as its root
+    else {
+      bool back = a == b || m.find(b, a) != nullptr;  // the new link a->b would be a self-loop or close a reciprocal pair: only now and then
+      if (back && (kind == 2 || kind == 3 || kind == 4 || kind == 11 || kind == 15) && !c.oneIn(8)) kind = 13;
+    }
     c.desc << "; ";
     switch (kind) {
       case 0:  // createNode(from, new, edge?)
@@ -479,7 +489,7 @@ LAW(H_tree_history, RC, 20000, 600000, 220, "a history in which the validity of 
         if (nd.size() >= 9) { c.desc << "nop"; break; }
         c.desc << "create()"; t.createNode(); break;
       case 2:  // addSon without object
-        if (m.find(a, b) || (!m.directed && a == b)) { c.desc << "nop"; break; }
+        if (m.find(a, b)) { c.desc << "nop"; break; }
         c.desc << "addSon(" << a << "," << b << ")"; t.obs.addSon(t.N[a], t.N[b]); t.noteEdge(a, b, -1, false); break;
       case 3: {  // setFather(b := son, a := father) without object
         if (!m.directed) { c.desc << "nop"; break; }
@@ -521,7 +531,6 @@ LAW(H_tree_history, RC, 20000, 600000, 220, "a history in which the validity of 
         for (U x : m.nodes) CHECK(t.g->hasFather(x) == (x != a), "after rootAt(" << a << ") hasFather(" << x << ")=" << t.g->hasFather(x));
         break; }
       case 9:  // unRoot(false)
-        if (m.selfLoop()) { c.desc << "nop"; break; }
         c.desc << "unRoot(false)";
         if (m.directed && m.reciprocal()) { CHECK(throwsBpp([&] { t.g->unRoot(false); }), "unRoot(false) with reciprocal links did not raise"); c.desc << "!"; break; }
         t.g->unRoot(false); m.directed = false; break;
@@ -534,7 +543,7 @@ LAW(H_tree_history, RC, 20000, 600000, 220, "a history in which the validity of 
         t.g->unRoot(true); m.eraseLink(m.root, so[0]); m.eraseLink(m.root, so[1]); m.root = so[0]; m.directed = false;
         U id = t.g->getAnyEdge(so[0], so[1]); m.edges[id] = ME{id, so[0], so[1], -1}; break; }
       case 11:  // observer.link
-        if (m.find(a, b) || (!m.directed && a == b)) { c.desc << "nop"; break; }
+        if (m.find(a, b)) { c.desc << "nop"; break; }
         c.desc << "link(" << a << "," << b << (wobj ? ",obj" : "") << ")"; t.linkObs(a, b, wobj); break;
       case 12: {  // observer.unlink of an existing link
         if (!m.directed || m.edges.empty()) { c.desc << "nop"; break; }
@@ -542,6 +551,22 @@ LAW(H_tree_history, RC, 20000, 600000, 220, "a history in which the validity of 
         c.desc << "unlink(" << e.a << "," << e.b << ")"; t.unlinkObs(e.a, e.b); break; }
       case 13:  // explicit validity query
         c.desc << "isValid?"; t.validity("isValid query"); break;
+      case 15: {  // law 4 on the tree graph itself: setFather / addSon with an explicit edge id
+        if (!m.directed) { c.desc << "nop"; break; }
+        bool viaFather = wobj; vector<U> fs = m.in(b);
+        if (viaFather ? fs.size() > 1 : m.find(a, b) != nullptr) { c.desc << "nop"; break; }
+        // the id: the node's present branch (the node moves and keeps its branch), the lowest id not in use (possibly one set free
+        // by an earlier removal), or an id beyond all ids in use
+        U lowFree = 0; while (m.edges.count(lowFree)) ++lowFree;
+        U id = lowFree; size_t pick = c.below(3);
+        if (pick == 0 && viaFather && fs.size() == 1) id = m.find(fs[0], b)->id;
+        else if (pick == 2) id = (m.edges.empty() ? 0 : m.edges.rbegin()->first + 1) + 1 + static_cast<U>(c.below(3));
+        c.desc << (viaFather ? "g.setFather(" : "g.addSon(") << (viaFather ? b : a) << "," << (viaFather ? a : b) << ",#" << id << ")";
+        if (viaFather) { t.g->setFather(b, a, id); if (fs.size() == 1) m.eraseLink(fs[0], b); } else t.g->addSon(a, b, id);
+        CHECK(t.g->getEdge(a, b) == id, "the link " << a << "->" << b << " made with the edge id " << id << " carries the id " << t.g->getEdge(a, b));
+        t.noteEdge(a, b, -1, false);
+        if (m.in(b).size() == 1) CHECK(t.g->getEdgeToFather(b) == id, "getEdgeToFather(" << b << ")=" << t.g->getEdgeToFather(b) << " after the link to its father was made with the edge id " << id);
+        break; }
       default: {  // structural queries (getSubtreeNodes goes through the validity cache)
         c.desc << "queries";
         if (!m.directed) break;
@@ -592,6 +617,57 @@ LAW(E_edge_object, ENUM, 1, 1, 0, "the son already has a father") {
     d.checkStructure("after");
     CHECK(d.obs.isValid(), "isValid()=false for the DAG " << d.m.show());
   }
+}
+
+// ================================================================== near-trees: a valid tree plus one more link (loops included), rooted or un-rooted
+// every rooted labelled tree with 1..5 nodes x every pair (a,b) not yet linked x {rooted, after unRoot(false)} x {validity asked before
+// the edit or not}: the graph with the additional link a->b (a--b) has as many links as nodes and is never a tree; without it, it is one again.
+LAW(E_tree_extra_link, ENUM, 4, 32, 0, "the additional link is a loop, or joins a node to one of its ancestors (the root included)") {
+  Shape s = enumShape(c, -1, 5);
+  c.desc << s.text; c.shardPoint();
+  size_t n = static_cast<size_t>(s.n);
+  U a = static_cast<U>(c.below(n)), b = static_cast<U>(c.below(n)); bool unrooted = c.flag(), asked = c.flag(), viaLink = c.flag();
+  TreeSut t(c); t.build(s, 0); Model& m = t.m;
+  if (unrooted ? (a > b || m.findAny(a, b)) : m.find(a, b) != nullptr) throw vf::Skip();
+  c.desc << (unrooted ? " unRoot(false)" : "") << (asked ? " isValid?" : "") << (viaLink ? " link(" : " addSon(") << a << "," << b << ")";
+  { TRef r(m); c.nt(a == b || r.isAnc(b, a)); }
+  if (unrooted) { t.g->unRoot(false); m.directed = false; }
+  if (asked) t.validity("before the additional link");
+  if (viaLink) t.linkObs(a, b, true); else { t.obs.addSon(t.N[a], t.N[b]); t.noteEdge(a, b, -1, false); }
+  t.checkStructure("with the additional link"); t.validity("with the additional link");
+  if (viaLink) t.unlinkObs(a, b); else { t.obs.removeSon(t.N[a], t.N[b]); m.eraseLink(a, b); }
+  t.checkStructure("after removing the additional link"); t.validity("after removing the additional link");
+  t.finish();
+}
+
+// law 4 on the tree graph itself: every rooted labelled tree with 1..5 nodes x node v x new father f x edge id (the present
+// branch of v, the lowest id not in use, an id beyond all ids in use) x {setFather(v,f,id), removeSon(father,v) + addSon(f,v,id)}
+LAW(E_edge_id, ENUM, 4, 32, 0, "the node had a father and is given another one") {
+  Shape s = enumShape(c, -1, 5);
+  c.desc << s.text; c.shardPoint();
+  size_t n = static_cast<size_t>(s.n);
+  U v = static_cast<U>(c.below(n)), f = static_cast<U>(c.below(n)); size_t pick = c.below(3); bool viaFather = c.flag();
+  TreeSut t(c); t.build(s, static_cast<int>(vf::hashStr(s.text) % 2) * 2); Model& m = t.m;  // links made by observer.link with objects, or by setFather / addSon
+  vector<U> fs = m.in(v);
+  if (pick == 0 && fs.empty()) throw vf::Skip();
+  U id = 0; while (m.edges.count(id)) ++id;
+  if (pick == 0) id = m.find(fs[0], v)->id; else if (pick == 2) id += 2;
+  c.desc << " build=" << (vf::hashStr(s.text) % 2) * 2 << (viaFather ? " g.setFather(" : " removeSon;g.addSon(") << (viaFather ? v : f) << "," << (viaFather ? f : v) << ",#" << id << ")";
+  c.nt(!fs.empty() && fs[0] != f);
+  t.validity("before");
+  if (viaFather) t.g->setFather(v, f, id);
+  else { if (!fs.empty()) t.obs.removeSon(t.N[fs[0]], t.N[v]); t.g->addSon(f, v, id); }
+  if (!fs.empty()) m.eraseLink(fs[0], v);
+  CHECK(t.g->getEdge(f, v) == id, "the link " << f << "->" << v << " made with the edge id " << id << " carries the id " << t.g->getEdge(f, v));
+  t.noteEdge(f, v, -1, false);
+  CHECK(t.g->getEdgeToFather(v) == id, "getEdgeToFather(" << v << ")=" << t.g->getEdgeToFather(v) << " after the link to its father was made with the edge id " << id);
+  t.checkStructure("after"); t.validity("after");
+  if (m.isTree()) {
+    TRef r(m); t.nodeQueries(r, v); t.nodeQueries(r, f); t.pairQueries(r, v, f, true);
+    U oldRoot = m.root; t.rootAtChecked(v, "rootAt the node that was moved"); t.rootAtChecked(oldRoot, "rootAt back");
+    CHECK(t.g->getEdgeToFather(v) == id, "getEdgeToFather(" << v << ")=" << t.g->getEdgeToFather(v) << " after re-rooting there and back; the link was made with the edge id " << id);
+  }
+  t.finish();
 }
 
 // ================================================================== DAGs
